@@ -205,6 +205,11 @@ func genImportFile(t *tape.Tape, cls string, pkg string) ImportFile {
 		}
 		add(s)
 		out.Imports = append(out.Imports, ImportLine{Line: len(lines), Text: s, Simple: im.simple, Wildcard: im.wildcard, Static: im.stat, Role: im.role})
+		if t.Bool(1, 12) {
+			// the same import line once more (a merge leftover): legal, and unused twice if unused once
+			add(s)
+			out.Imports = append(out.Imports, ImportLine{Line: len(lines), Text: s, Simple: im.simple, Wildcard: im.wildcard, Static: im.stat, Role: im.role})
+		}
 	}
 	if t.Bool(1, 10) {
 		add("// caf\u00a7LEGACY\u00a7 au lait: a comment in a legacy 8-bit encoding")
